@@ -133,8 +133,10 @@ func (d *uripostDecoder) readBlock(reader *bufio.Reader, commonHeader http.Heade
 
 	header := commonHeader.Clone()
 	for k, vv := range d.decodedConfigHeaders {
-		for _, v := range vv {
-			header.Set(k, v)
+		// headers in the ammo file have priority over the `headers` option
+		k = http.CanonicalHeaderKey(k)
+		if _, ok := header[k]; !ok {
+			header[k] = append([]string(nil), vv...)
 		}
 	}
 	a := d.pool.Get().(*ammo.Ammo)
